@@ -30,6 +30,8 @@ import (
 type vfC05SIO struct {
 	mu       sync.Mutex
 	limit    int
+	shrinkIn int // >0: after this many more accepted datagrams the limit becomes shrinkTo (path MTU dropped mid-message)
+	shrinkTo int
 	inbox    chan *protocol.UDPMessage
 	closed   chan struct{}
 	out      [][]byte // datagrams accepted, in order
@@ -60,6 +62,11 @@ func (f *vfC05SIO) SendMessage(buf []byte, m *protocol.UDPMessage) error {
 		return &quic.DatagramTooLargeError{MaxDatagramPayloadSize: int64(f.limit)}
 	}
 	f.out = append(f.out, append([]byte(nil), buf[:n]...))
+	if f.shrinkIn > 0 {
+		if f.shrinkIn--; f.shrinkIn == 0 {
+			f.limit = f.shrinkTo
+		}
+	}
 	return nil
 }
 func (f *vfC05SIO) Hook(data []byte, reqAddr *string) error { return nil }
@@ -108,8 +115,10 @@ func TestVerifC05ServerSession(t *testing.T) {
 		r := k.Rand(caseID)
 		k.Eval()
 		type step struct {
-			Limit int `json:"limit"`
-			Size  int `json:"reply_len"`
+			Limit    int `json:"limit"`
+			Size     int `json:"reply_len"`
+			ShrinkIn int `json:"shrink_after_datagrams,omitempty"` // the limit drops to ShrinkTo after this many datagrams of this reply left
+			ShrinkTo int `json:"shrink_to,omitempty"`
 		}
 		var script []step
 		nrep := 3 + r.Intn(8)
@@ -129,7 +138,15 @@ func TestVerifC05ServerSession(t *testing.T) {
 			if size > protocol.MaxUDPSize-64 {
 				size = protocol.MaxUDPSize - 64
 			}
-			script = append(script, step{lim, size})
+			st := step{Limit: lim, Size: size}
+			if j == nrep-1 && i%3 == 0 && size > 2*lim {
+				// last reply of the script: the limit shrinks a little BETWEEN two fragments of this message
+				// (mostly leaving the fragment count as it was). The message then either is not delivered or
+				// is delivered intact; what left before the change must not combine with anything else.
+				st.ShrinkIn = 1 + r.Intn(max(1, size/lim))
+				st.ShrinkTo = max(40, lim-1-r.Intn(min(lim/4+1, 150)))
+			}
+			script = append(script, st)
 		}
 		rep := map[string]any{"case_id": caseID, "script": script}
 		synctest.Test(t, func(t *testing.T) {
@@ -145,6 +162,7 @@ func TestVerifC05ServerSession(t *testing.T) {
 			for j, st := range script {
 				fio.mu.Lock()
 				fio.limit = st.Limit
+				fio.shrinkIn, fio.shrinkTo = st.ShrinkIn, st.ShrinkTo
 				before := len(fio.out)
 				fio.mu.Unlock()
 				payload := vfC05SPayload(uint32(i*32+j), st.Size)
@@ -164,7 +182,7 @@ func TestVerifC05ServerSession(t *testing.T) {
 				fio.oversize = nil
 				fio.mu.Unlock()
 				rep["step"] = j
-				if len(over) > 0 {
+				if len(over) > 0 && st.ShrinkIn == 0 { // (after a mid-message drop the fragments cut for the old limit legitimately no longer fit)
 					k.Violation("send:fragment-exceeds-datagram-limit", rep, "reply %d (%d bytes, limit now %d): %s", j, st.Size, st.Limit, over[0])
 				}
 				if len(sent) > 255 {
@@ -173,7 +191,7 @@ func TestVerifC05ServerSession(t *testing.T) {
 				emitted := 0
 				for _, raw := range sent {
 					k.Count("ev_session_datagrams", 1)
-					if len(raw) > st.Limit {
+					if len(raw) > st.Limit { // (a shrinking limit only ever goes below st.Limit, and the fake refuses what does not fit at the time)
 						k.Violation("send:datagram-over-limit", rep, "datagram of %d bytes left while the limit is %d", len(raw), st.Limit)
 					}
 					m, err := protocol.ParseUDPMessage(append([]byte(nil), raw...))
@@ -188,7 +206,12 @@ func TestVerifC05ServerSession(t *testing.T) {
 						}
 					}
 				}
-				if len(sent) > 0 && emitted != 1 {
+				if st.ShrinkIn > 0 {
+					k.Count("ev_session_limit_shrank_mid_message", 1)
+					if emitted > 1 {
+						k.Violation("send:partial-or-duplicated-message", rep, "reply %d (limit shrank mid-message): %d datagrams left and reassemble to %d messages", j, len(sent), emitted)
+					}
+				} else if len(sent) > 0 && emitted != 1 {
 					k.Violation("send:partial-or-duplicated-message", rep, "reply %d: %d datagrams left and reassemble to %d messages", j, len(sent), emitted)
 				}
 				if emitted == 1 {
